@@ -258,6 +258,21 @@ class HostileRun:
         a.send(mt, bytes(ch.pick("mt.len", 16)), tagged=False)
         self.t(f"{a.name} publishes message type {mt}")
 
+    def op_type_sweep(self):
+        """many distinct message types within one statistics interval (64 per TRAFFIC sub-message)"""
+        ch = self.ch
+        a = self.pick_offender()
+        k = ch.choose("sweep.k", [63, 64, 65, 127, 128, 129, 192, 200])
+        base = ch.choose("sweep.base", [3000, 9900, 20000])
+        for i in range(k):
+            a.send(base + i, b"", tagged=False)
+        self.t(f"{a.name} publishes {k} distinct message types from {base}")
+        self.w.quiesce(limit=4000)
+        self.w.advance(1.1)
+        self.w.step()
+        self.w.step()
+        self.res.probes[f"type_sweep_{k}"] += 1
+
     def op_burst(self):
         ch = self.ch
         n = ch.choose("burst.n", [5, 30, 101, 120, 260, 300])
@@ -340,7 +355,7 @@ class HostileRun:
 
     # ------------------------------------------------------------------ run
     OPS = [(6, "hdr"), (4, "ctl"), (4, "cut"), (2, "garbage"), (3, "msgtype"), (1, "burst"),
-           (3, "pair"), (4, "bystander")]
+           (3, "pair"), (4, "bystander"), (2, "sweep")]
 
     def one_op(self):
         ch = self.ch
@@ -361,6 +376,8 @@ class HostileRun:
                 self.op_burst()
         elif k == "pair":
             self.op_pair_fail()
+        elif k == "sweep":
+            self.op_type_sweep()
         else:
             self.publish_bystander()
             self.t("P publishes type 4000")
